@@ -194,20 +194,22 @@ def run(rep, tier, seed):
                   ("list.py", ["PersistentList.cons", "PersistentList.pop"]), ("queue.py", ["PersistentQueue.cons", "PersistentQueue.pop"])):
         rep.encoded("src/basilisp/lang/" + f, qs, "executed under CrossHair (pyrsistent / immutables cores run concretely)")
     rep.encoded_lisp("src/basilisp/core.lpy", ["conj", "assoc", "dissoc", "disj", "pop", "peek", "into", "empty", "with-meta", "merge", "transient", "persistent!"], "compiled from source")
-    nops = 2 if quick else 3
-    to = 90 if quick else 150
+    nops = 2
+    to = 90 if quick else 180
     specs = []
     for kind in ("vector", "map", "set", "list", "queue"):
-        big = {"vector": 34, "map": 4}.get(kind, 3)
-        seeds = (big,) if quick else ((4, 34) if kind == "map" else (big,))
-        for sd in seeds:
-            if quick:
-                # length 2 on the reduced domain (4 keys incl. nil, values 0/nil) + every single operation on the full domain
-                specs += [spec(kind, sd, nops, to * 2 if kind == "map" else to, first_op=f, nkeys=4, nvals=2) for f in range(9)]
-                specs += [spec(kind, s1, 1, to) for s1 in ((0, sd) if sd else (0,))]
-            else:
-                specs += [spec(kind, sd, nops, to, first_op=f) for f in range(9)]
-    rep.bounds = {"history length": nops, "seeds": "vector: 34 elements (two trie levels); map: keys 0/32/1024/5 (shared hash bits: interior nodes; 34 entries thorough-only); 3 otherwise; empty seeds in the length-1 family and the thorough tier",
+        sd = {"vector": 34, "map": 4}.get(kind, 3)
+        # length 2 on the reduced domain (4 keys incl. nil, values 0/nil) + every single operation on the full domain
+        specs += [spec(kind, sd, 2, to * 2 if kind == "map" else to, first_op=f, nkeys=4, nvals=2) for f in range(9)]
+        specs += [spec(kind, s1, 1, to) for s1 in (0, sd)]
+        if not quick and kind in ("vector", "map", "set"):
+            # thorough: the same obligations with twice the budget, then length 2 on the full domain, a 34-entry map seed,
+            # and length 3 (reduced domain) behind four first operations
+            specs += [spec(kind, sd, 2, 300, first_op=f) for f in range(9)]
+            specs += [spec(kind, sd, 3, 300, first_op=f, nkeys=4, nvals=2) for f in (0, 1, 2, 8)]
+            if kind == "map":
+                specs += [spec(kind, 34, 1, 300)]
+    rep.bounds = {"history length": "2 (quick); 2 on the full domain and 3 on the reduced domain (thorough)", "seeds": "vector: 34 elements (two trie levels); map: keys 0/32/1024/5 (shared hash bits: interior nodes; 34 entries thorough-only); 3 otherwise; empty seeds in the length-1 family and the thorough tier",
                   "keys": "0, two objects with colliding hashes, a keyword, nil", "values": "0, nil, false"}
     rep.outside = ["the C cores of pyrsistent / immutables are executed, not encoded", "longer histories", "update / nth on maps"]
     rep.trusted += ["crosshair-tool 0.0.110 + z3", "tuple / dict / set models in vlib/props/c04.py"]
